@@ -86,6 +86,7 @@ class Contract:
     ghosts: Dict[str, Sort] = field(default_factory=dict)          # ghost locals (unconstrained at entry)
     ghost_after: Dict[str, List[str]] = field(default_factory=dict)  # stmt source text -> ["name = expr", ...]
     ghost_before: Dict[str, List[str]] = field(default_factory=dict)
+    ghost_init: Dict[str, str] = field(default_factory=dict)
     notes: str = ""
 
     # ---- DSL -----------------------------------------------------------
@@ -135,8 +136,10 @@ class Contract:
                 return m
         return self.loops
 
-    def ghost(self, name, sort):
+    def ghost(self, name, sort, init=None):
         self.ghosts[name] = sort
+        if init is not None:
+            self.ghost_init[name] = init
         return self
 
     def after(self, stmt_text, *assigns):
